@@ -352,10 +352,14 @@ func jobsFor(prop, tier string) []*Job {
 					Bounds: "three servers with symbolic weights 1..3, symbolic rotation state (0..3 warm-up selections), symbolic target server: request without cookie, request with the target's cookie, the same cookie after the target was removed, then a cookie nobody issued (5 forms); real http cookie parsing/formatting interpreted"})
 			}
 		}
+		freshRounds := 3
+		if thorough {
+			freshRounds = 4
+		}
 		for _, kind := range []int{0, 3, 5} {
 			for rb := 0; rb < 2; rb++ {
-				add(&Job{Name: fmt.Sprintf("O4-cookies-over-time/%s,rebalancer=%d", names[kind], rb), Pkg: "roundrobin", Harness: "VerifC11Fresh", Grid: 1e9, Params: p("kind", kind, "rebalancer", rb, "rounds", 3),
-					Bounds: "three servers of weight 1; a first visit without cookie, then 3 rounds of idle time from {0,4,10,11,25 s} (symbolic; cookie lifetime of the expiring codecs 10 s) followed by a request presenting the cookie last received: a cookie within its lifetime goes to its server, every cookie handed out pins the client at once"})
+				add(&Job{Name: fmt.Sprintf("O4-cookies-over-time/%s,rebalancer=%d", names[kind], rb), Pkg: "roundrobin", Harness: "VerifC11Fresh", Grid: 1e9, Params: p("kind", kind, "rebalancer", rb, "rounds", freshRounds),
+					Bounds: "three servers of weight 1; a first visit without cookie, then " + fmt.Sprint(freshRounds) + " rounds of idle time from {0,4,10,11,25 s} (symbolic; cookie lifetime of the expiring codecs 10 s) followed by a request presenting the cookie last received: a cookie within its lifetime goes to its server, every cookie handed out pins the client at once"})
 			}
 		}
 	case "C08":
